@@ -307,6 +307,10 @@ def check(prop, tier, seed):
     gen = generate()
     known = load_known()
     obs = select(spec["obligations"], tier)
+    only = os.environ.get("VERIF_ONLY")
+    if only:
+        # development aid (seeded-change trials): restrict to obligations whose harness matches
+        obs = [o for o in spec["obligations"] if re.search(only, o["harness"])]
     rnd = random.Random(seed)
     rnd.shuffle(obs)
     lines = []
@@ -326,6 +330,8 @@ def check(prop, tier, seed):
     smt_results = []
     for s in spec.get("smt", []):
         if tier == "quick" and s.get("tier", "quick") != "quick":
+            continue
+        if only and not re.search(only, s["module"]):
             continue
         import importlib
         mod = importlib.import_module(s["module"])
